@@ -153,6 +153,8 @@ type Spec struct {
 	RtMinPoolExtra uint16 `json:"rt_min_pool_extra"`
 	RtValidatorSet bool   `json:"rt_validator_set"`
 	RtOwnStake     bool   `json:"rt_own_stake"`
+	// RtOwner: index of the entity that owns (governs) the runtime; 0 = the anchor entity.
+	RtOwner        int    `json:"rt_owner"`
 	RtStragglers   uint16 `json:"rt_stragglers"`
 	RtRoundTimeout int64  `json:"rt_round_timeout"`
 	WithVault      bool   `json:"with_vault"`
@@ -496,7 +498,7 @@ func BuildGenesis(spec *Spec) (*World, error) {
 		rt = &registry.Runtime{
 			Versioned:   cborV(registry.LatestRuntimeDescriptorVersion),
 			ID:          RuntimeID,
-			EntityID:    w.Entities[0].Signer.Public(),
+			EntityID:    w.Entities[spec.RtOwner%len(w.Entities)].Signer.Public(),
 			Kind:        registry.KindCompute,
 			TEEHardware: node.TEEHardwareInvalid,
 			Executor: registry.ExecutorParameters{
